@@ -15,6 +15,7 @@ func init() {
 			// the histories quantified over include restarts: the record must survive them
 			c.SyncOption("C03")
 			c.WhoWrites("C03")
+			c.DomainRules("C05") // slashable objects are signed only through the protected endpoints
 			c.ForkJoinRules("C03") // rule evaluation finishes (and records) before RunRules returns and the key locks are released
 			c.BadgerBufferDiscipline("C11")
 			c.EntryAlignment("C02", s, "prop")
